@@ -526,7 +526,12 @@ def run_behaviour(ctx, hist, variant, vseed):
             # a second list object made from the list at hand
             form = st["op"]["form"]
             if form == "emmotl_of_emmotl" and not isinstance(motl, cryomotl.EmMotl):
-                motl = cryomotl.EmMotl(motl.df)           # (the copy constructor takes an EmMotl: the list at hand becomes one)
+                # (the copy constructor takes an EmMotl: the list at hand becomes one)
+                made, err0 = core.call_guarded(lambda: cryomotl.EmMotl(motl.df))
+                if err0 is not None:
+                    ctx.fail("call_raises", "step %d derive (%s): EmMotl(table): %s" % (i, form, err0), case, dict(sig, form=form))
+                    break
+                motl = made
             fn = {"emmotl_of_emmotl": lambda: cryomotl.EmMotl(motl), "load_object": lambda: cryomotl.Motl.load(motl),
                   "emmotl_of_table": lambda: cryomotl.EmMotl(motl.df)}[form]
             derived, err = core.call_guarded(fn)
@@ -575,7 +580,14 @@ def run_behaviour(ctx, hist, variant, vseed):
         elif op == "adopt":
             # go on with the loaded object itself; once the harness has edited it (droprow / duprows assign to its df),
             # a later adopt of the same loaded list takes a fresh object on the table as it was loaded
-            motl = loaded if not adopted else cryomotl.EmMotl(held[-1][2].copy(deep=True))
+            if not adopted:
+                motl = loaded
+            else:
+                made, err0 = core.call_guarded(lambda: cryomotl.EmMotl(held[-1][2].copy(deep=True)))
+                if err0 is not None:
+                    ctx.fail("call_raises", "step %d adopt: EmMotl(table): %s" % (i, err0), case, sig)
+                    break
+                motl = made
             adopted = True
             cur = post["tbl"]
             if not check_table(ctx, motl.df, cur, vals, case, sig, "C01_RoundTrip"):
